@@ -37,3 +37,10 @@ add("C14", "exploration", "runtime monitor: structural sweep of every store leve
 add("C17", "exploration", "runtime monitor: harness-computed frontier/blocked-path oracle over systematic node removals, donor snapshot comparison around MergeDB",
     "4 800 (quick) / 120 000 (thorough) tries built over 1-4 versions; for every single non-root node (<=24), subtrees and scattered subsets the damaged copy must report exactly the frontier, fail exactly the blocked lookups with ErrNodeNotFound, never yield wrong data, and after MergeDB from a donor store read the full content with the same root while the donor's key->encoding snapshot is unchanged.",
     "Single-node removals exhaustive per trie (up to 24 nodes), other subsets sampled; donor is a MemoryNodeDB.")
+
+add("C06", "exploration", "runtime monitor: independent block-tree model (unique token per write) judging every lookup through all four cache entry points over generated block trees",
+    "96 000 (quick) / 1 600 000 (thorough) random block trees with forks, gaps, abandoned blocks/transactions, out-of-order commits and interleaved lookups at tips, old blocks and siblings, plus hot-key chains up to 2 600 blocks; every lookup result is either a miss or exactly the model's value, a final sweep reads every (key, block).",
+    "Model skips uncommitted blocks (their writes are private), so {miss, nearest committed write} is legal; wrong hits on keys with >200 cache entries are the known finding per-key-version-overflow.")
+add("C07", "exploration", "runtime monitor: block-tree model with visibility and must-hit rules, mutable values scribbled by the harness after every set and get",
+    "64 000 (quick) / 1 200 000 (thorough) block trees with mutable value types (byte slice with deep Clone; leaf, branch, extension and value trie nodes); the harness overwrites every object it hands in or receives; lookups must miss for uncommitted foreign writes, must hit with the original logical content for own entries and for committed writes on a fully committed chain within capacity.",
+    "Must-hit assertions only an order of magnitude below the cache capacities (<100 versions per key, <1000 commits).")
